@@ -1,0 +1,118 @@
+//! Read-only observer of the replica state machine for the deterministic-simulation harness.
+//! Compiled only with `--cfg era_consensus_verif`. It never influences the replica.
+use std::{cell::RefCell, rc::Rc};
+
+use zksync_concurrency::time;
+use zksync_consensus_roles::validator;
+
+use crate::v2_chonky_bft::StateMachine;
+
+/// What the replica has just done.
+#[derive(Debug, Clone, PartialEq, Eq)]
+pub enum Event {
+    /// `StateMachine::run` has started (state loaded from the backup).
+    Start,
+    /// The view timer fired (or view 0 was bootstrapped) and `start_timeout` completed.
+    Timeout,
+    /// A message has been handled; `label` names its kind, `error` the rejection class.
+    Handled {
+        /// Message kind.
+        label: &'static str,
+        /// View of the message.
+        view: u64,
+        /// Debug name of the error variant, `None` if the message was accepted.
+        error: Option<String>,
+    },
+}
+
+/// Snapshot of the replica state (persisted and volatile parts).
+#[derive(Debug, Clone)]
+pub struct Snapshot {
+    /// What happened.
+    pub event: Event,
+    /// Key of the replica.
+    pub key: validator::PublicKey,
+    /// Identity of the engine manager the replica runs on (distinguishes incarnations).
+    pub engine_id: usize,
+    /// Current view.
+    pub view: validator::ViewNumber,
+    /// Current phase.
+    pub phase: validator::v2::Phase,
+    /// Last commit vote signed.
+    pub high_vote: Option<validator::v2::ReplicaCommit>,
+    /// Highest commit certificate.
+    pub high_commit_qc: Option<validator::v2::CommitQC>,
+    /// Highest timeout certificate.
+    pub high_timeout_qc: Option<validator::v2::TimeoutQC>,
+    /// View timer deadline.
+    pub view_timeout: time::Deadline,
+    /// Number of (block number, payload) entries in the proposal cache.
+    pub proposal_cache: usize,
+    /// Number of entries of `commit_views_cache`.
+    pub commit_views: usize,
+    /// Number of distinct views in `commit_qcs_cache`.
+    pub commit_qc_views: usize,
+    /// Total number of certificates under construction in `commit_qcs_cache`.
+    pub commit_qcs: usize,
+    /// Number of entries of `timeout_views_cache`.
+    pub timeout_views: usize,
+    /// Number of entries (= views) in `timeout_qcs_cache`.
+    pub timeout_qcs: usize,
+}
+
+type Observer = Rc<dyn Fn(Snapshot)>;
+
+thread_local! {
+    static OBSERVER: RefCell<Option<Observer>> = const { RefCell::new(None) };
+    static LAST_ERR: RefCell<Option<String>> = const { RefCell::new(None) };
+}
+
+/// Installs (or removes) the observer of the current thread.
+pub fn install_observer(o: Option<Observer>) {
+    OBSERVER.with(|x| *x.borrow_mut() = o);
+}
+
+/// Remembers the class of the error the message being handled was rejected with.
+pub(crate) fn note_err(err: &dyn std::fmt::Debug) {
+    if OBSERVER.with(|x| x.borrow().is_none()) {
+        return;
+    }
+    let s = format!("{err:?}");
+    let class: String = s
+        .chars()
+        .take_while(|c| c.is_alphanumeric() || *c == '_')
+        .collect();
+    LAST_ERR.with(|x| *x.borrow_mut() = Some(class));
+}
+
+pub(crate) fn emit_handled(sm: &StateMachine, label: &'static str, view: u64) {
+    let error = LAST_ERR.with(|x| x.borrow_mut().take());
+    emit(sm, Event::Handled { label, view, error });
+}
+
+pub(crate) fn emit(sm: &StateMachine, event: Event) {
+    if event == Event::Start {
+        // A previous incarnation on this thread may have died between `note_err` and `emit`.
+        LAST_ERR.with(|x| x.borrow_mut().take());
+    }
+    let Some(o) = OBSERVER.with(|x| x.borrow().clone()) else {
+        return;
+    };
+    o(Snapshot {
+        event,
+        key: sm.config.secret_key.public(),
+        engine_id: std::sync::Arc::as_ptr(&sm.config.engine_manager) as usize,
+        view: sm.view_number,
+        phase: sm.phase,
+        high_vote: sm.high_vote.clone(),
+        high_commit_qc: sm.high_commit_qc.clone(),
+        high_timeout_qc: sm.high_timeout_qc.clone(),
+        view_timeout: sm.view_timeout,
+        proposal_cache: sm.block_proposal_cache.values().map(|m| m.len()).sum(),
+        commit_views: sm.commit_views_cache.len(),
+        commit_qc_views: sm.commit_qcs_cache.len(),
+        commit_qcs: sm.commit_qcs_cache.values().map(|m| m.len()).sum(),
+        timeout_views: sm.timeout_views_cache.len(),
+        timeout_qcs: sm.timeout_qcs_cache.len(),
+    });
+}
